@@ -15,6 +15,9 @@ RULE = ("an exhaustive sweep: both a bit flip and an increment at EVERY offset o
 def run(ctx, scale): cfgscen.run_c17(ctx, scale)
 def replay(ctx, case):
     c = case.get("case", case)
+    if "layout" in c:
+        cfgscen.c17_layout_case(ctx, ctx.rng, c["layout"])
+        return {"spec_failures": [d for _, d in ctx.spec_failures][:3]}
     if "sweep" in c:
         cfgscen.c17_sweep(ctx, ctx.rng, c.get("stride", 1), c["sweep"])
         return {"spec_failures": [d for _, d in ctx.spec_failures][:3]}
